@@ -3,7 +3,7 @@
    its procedure) accepts exactly the separated renderings of well-formed lexemes, whitespace between
    tokens never matters, and malformed text is rejected.  Only final statements; proofs live in
    Proofs/ScannerProofs.v. *)
-From Verif Require Import Base Tokens Scanner ScannerProofs.
+From Verif Require Import Base Tokens Scanner Parser Grammar ScannerProofs Driver FrontEnd.
 From Verif Require Tie.
 
 (* The token loop succeeds with ts exactly on the texts w0 t1 w1 ... tn wn made of well-formed lexemes,
@@ -75,6 +75,25 @@ Proof. exact scan_unexpected_char_after. Qed.
 Theorem C01_scan_fuel_enough : forall cs, scan_loop (List.length cs) cs <> Err OutOfFuel.
 Proof. exact scan_fuel_enough. Qed.
 
+(* Strings: scanning followed by parsing accepts a text exactly when it is a separated rendering of
+   well-formed lexemes whose token list (implicit intercept inserted, end marker appended) is a sentence
+   of the precedence grammar, and then returns the grammar's tree. *)
+Theorem C01_parse_string_iff : forall s e,
+  parse_string s = Ok e <->
+  exists ts ws toks,
+    chars_of s = render ts ws /\ chars_of s <> [] /\
+    forallb wf_lexeme ts = true /\ valid_ws ts ws /\ separated ts ws = true /\
+    finish true ts = Ok toks /\ Sentence toks e.
+Proof. exact parse_string_iff. Qed.
+
+Theorem C01_parse_string_whitespace_irrelevant : forall s s' ts ws ws',
+  chars_of s = render ts ws -> chars_of s' = render ts ws' -> ts <> [] ->
+  forallb wf_lexeme ts = true ->
+  valid_ws ts ws -> separated ts ws = true ->
+  valid_ws ts ws' -> separated ts ws' = true ->
+  parse_string s = parse_string s'.
+Proof. exact parse_string_whitespace_irrelevant. Qed.
+
 (* Non-vacuity: a 26-token formula with every token class; tight and wide spacing scan alike. *)
 Example C01_scanner_example : forall b,
   forallb wf_lexeme ex_ts = true /\ valid_ws ex_ts ws_tight /\ separated ex_ts ws_tight = true /\
@@ -96,3 +115,5 @@ Print Assumptions C01_scan_rejects_unterminated_backquote.
 Print Assumptions C01_scan_rejects_unexpected_char.
 Print Assumptions C01_scan_fuel_enough.
 Print Assumptions C01_scanner_example.
+Print Assumptions C01_parse_string_iff.
+Print Assumptions C01_parse_string_whitespace_irrelevant.
